@@ -283,7 +283,7 @@ def recipes():
 
     def b_gtf(plot, full):
         def b(d, k):
-            inputs = dict(data=d, mef_values=[[0.0, 646.0, 4827.0, 47609.0], [0.0, 1000.0, 9000.0, 80000.0]] if not full else [[None, 646.0, 4827.0, 47609.0], [0.0, 1000.0, 9000.0, 80000.0]],
+            inputs = dict(data=d, mef_values=[[0.0, 646.0, 4827.0, 47609.0], [0.0, 1000.0, 9000.0, 80000.0]] if (not full or k != 'rfi') else [[None, 646.0, 4827.0, 47609.0], [0.0, 1000.0, 9000.0, 80000.0]],
                           mef_channels=['FL1-H', 'FL2-H'], clustering_channels=['FL1-H', 'FL2-H'],
                           clustering_params={'tol': 1e-6}, statistic_params={}, selection_params={'n_std_low': 2.0}, fitting_params={})
             return inputs, lambda a: FlowCal.mef.get_transform_fxn(
@@ -291,9 +291,10 @@ def recipes():
                 statistic_params=a['statistic_params'], selection_params=a['selection_params'], fitting_params=a['fitting_params'],
                 plot=plot, plot_dir=scratch() if plot else None, plot_filename='c13beads', full_output=full)
         return b
-    add('mef.get_transform_fxn', ['rfi'], b_gtf(False, False), cheap=False, kind='read-fn')
+    add('mef.get_transform_fxn', ['rfi', 'float'], b_gtf(False, False), cheap=False, kind='read-fn')
     add('mef.get_transform_fxn(full)', ['rfi'], b_gtf(False, True), cheap=False, kind='read-fn')
-    add('mef.get_transform_fxn(plot)', ['rfi'], b_gtf(True, True), cheap=False, plot=True)
+    # also on samples whose ranges start at 0 (raw channel numbers, linear float data): the plotting branch adjusts a lower limit
+    add('mef.get_transform_fxn(plot)', ['rfi', 'float'], b_gtf(True, True), cheap=False, plot=True)
     add('mef.get_transform_fxn(one channel)', ['rfi'], lambda d, k: (
         dict(data=d, mef_values=[0.0, 646.0, 4827.0, 47609.0], clustering_channels=['FL1-H']),
         lambda a: FlowCal.mef.get_transform_fxn(a['data'], a['mef_values'], 'FL1-H', clustering_channels=a['clustering_channels'])), cheap=False)
